@@ -740,7 +740,10 @@ pub trait ArenaFrom<T> {
 impl ArenaFrom<Integer> for Number {
     #[inline]
     fn arena_from(value: Integer, arena: &mut Arena) -> Number {
-        Number::Integer(arena_alloc!(value, arena))
+        match Fixnum::build_with_checked(&value) {
+            Ok(n) => Number::Fixnum(n),
+            Err(_) => Number::Integer(arena_alloc!(value, arena)),
+        }
     }
 }
 
